@@ -344,6 +344,44 @@ def judge_backend(res, st, user):
         add_violation(res, "backend:stage-order-differs", case, exp, got)
 
 
+def judge_backend_formats(res, st, user, seq):
+    """one backend object converts with a sequence of output formats: every conversion runs backend + user + THAT format's pipeline"""
+    from sigma.collection import SigmaCollection
+    from sigma.rule import SigmaRule
+
+    cls = V.make_backend_class(K, fresh=True)
+    cls.backend_processing_pipeline = mk(1)
+    cls.formats = {"default": "d", "alt": "a", "bare": "b"}
+    from collections import defaultdict
+    from sigma.processing.pipeline import ProcessingPipeline
+
+    cls.output_format_processing_pipeline = defaultdict(ProcessingPipeline, {"default": mk(3), "alt": mk(4)})  # 'bare' has no format pipeline
+    for f in ("alt", "bare"):
+        setattr(cls, "finalize_query_" + f, lambda self, rule, query, index, state: query)
+        setattr(cls, "finalize_output_" + f, lambda self, queries: queries)
+    fmt_pipe = {"default": [3], "alt": [4], "bare": []}
+    case = {"kind": "backend-formats", "user": user, "formats": list(seq)}
+    res["evaluations"] += 1
+    st.history()
+    st.transition(len(seq))
+    b = cls(mk(user) if user else None)
+    got = exp = None
+    for fmt in seq:
+        try:
+            out = b.convert(SigmaCollection([SigmaRule.from_dict(copy.deepcopy(RULE_D))]), fmt)
+            lp = b.last_processing_pipeline
+            got = ("ok", out, sorted((k, v) for k, v in lp.vars.items() if not k.startswith("backend") and k != "output_format"), list(lp.applied), sorted(lp.applied_ids))
+        except Exception as e:
+            got = ("err", type(e).__name__, str(e)[:200])
+        exp = ref_observe([1] + ([user] if user else []) + fmt_pipe[fmt])
+        if got != exp:
+            add_violation(res, "backend:stage-order-differs:after-other-output-format" if len(seq) > 1 else "backend:stage-order-differs:format", dict(case, at=fmt), exp, got)
+            break
+    st.state(["backend-formats", user, list(seq)])
+    res["outcomes"].add(h64(got))
+    res["nontrivial"].add(h64(case))
+
+
 def plan(tier, seed):
     return ["plus", "plus-pre", "sum", "resolver", "backend"]
 
@@ -396,6 +434,10 @@ def run_shard(shard, tier, seed):
     else:
         for user in (None, 2, 4):
             judge_backend(res, st, user)
+        for user in (None, 2):
+            for k in (1, 2, 3):
+                for seq in itertools.product(("default", "alt", "bare"), repeat=k):
+                    judge_backend_formats(res, st, user, seq)
         res["samples"].append({"kind": "backend", "user": 2})
     return res
 
